@@ -37,6 +37,7 @@ Create the directory `@WT@/seeded/@R@/` containing:
 - The violation must be a genuine violation of the property as stated (not of something stricter), reachable through the public stream API with configurations a real user could have.
 - It must not be detectable by the stock test suite: verify yourself that all 341 tests pass with the change applied.
 - The demonstration must drive the parser the way docs/QUICK_START section 2.2 documents: after a call returns DATA_OTHER, remember the consumed count, feed the other direction, and attempt to resume the suspended direction after EACH chunk given to the other direction; never offer response data for a request that has not been offered yet.
+- Prefer a change whose exposure needs a multi-step history (three or more API calls in a particular order: a hand-over, a half-close, a stream gap, a transaction destroyed by the application, an interim response, a callback that returns DECLINED/STOP/ERROR, a configuration setter combined with a particular message) over one that a single well-chosen message exposes at once.
 - Subtle is better than loud.
 - When you are done: leave the worktree with your change REVERTED (`git checkout -- htp` and rebuild), keeping only `seeded/@R@/`. Verify `git apply --check seeded/@R@/patch.diff` succeeds on the reverted tree.
 - Final answer: a 5-line summary (what you changed, where, how it is exposed, demo output with/without).
